@@ -682,8 +682,8 @@ def run_all(chk, hy, impl, model_ok, thorough):
     if model_ok:
         phases = [parser_phase(chk, hy, impl, batch, sigs if not thorough else sigs[:3000], 3 if not thorough else 2),
                   compile_phase(chk, hy, impl, batch, sigs, results),
-                  pybind_phase(chk, hy, impl, batch, 1500 if thorough else 150, 8, 6, 6),
-                  binding_phase(chk, hy, impl, batch, sigs, results, 10 if thorough else 8, 6, exhaustive_calls=False),
+                  pybind_phase(chk, hy, impl, batch, 1500 if thorough else 100, 8, 6, 6),
+                  binding_phase(chk, hy, impl, batch, sigs, results, 10 if thorough else 6, 6, exhaustive_calls=False),
                   rejects_phase(chk, hy, impl, batch, sigs, results),
                   collect_phase(chk, hy, impl, batch, 3000 if thorough else 300, 6),
                   body_phase(chk, hy, impl, batch, 400 if thorough else 90, 4)]
@@ -702,7 +702,7 @@ def run_all(chk, hy, impl, model_ok, thorough):
             model_ok = False
     if not model_ok:
         oracle_only(chk, hy, impl, sigs, rng)
-    async_gen_phase(chk, hy, impl, 400 if thorough else 60)
+    async_gen_phase(chk, hy, impl, 400 if thorough else 80)
 
 
 def oracle_only(chk, hy, impl, sigs, rng):
